@@ -264,7 +264,8 @@ func (c *Ctx) StartModel() *Model {
 	if c.ModelBin == "" {
 		c.Fatal("no -model binary given")
 	}
-	cmd := exec.Command(c.ModelBin)
+	// the extracted model recurses on lists (non tail-recursive): give it a large stack
+	cmd := exec.Command("sh", "-c", "ulimit -s 4000000 2>/dev/null || ulimit -s unlimited 2>/dev/null; exec \"$0\"", c.ModelBin)
 	in, _ := cmd.StdinPipe()
 	out, _ := cmd.StdoutPipe()
 	cmd.Stderr = os.Stderr
